@@ -292,8 +292,15 @@ def composed_case(ctx, rng, idx):
              'upstream': upstream, 'composed': len(leaves) > 1 or force}
     ctx.case(('+'.join(codes), min(n_ids, 3), reduced, upstream, force),
              True, sample=feats)
+    # models without heterogeneous parts are documented to ignore the
+    # configured number of individuals: some are evaluated for another
+    # number of rows than they were configured for
+    n_conf = n_ids
+    if rng.random() < 0.3 and not any(l.kind == 'H' for l in leaves):
+        n_conf = int(rng.integers(1, 6))
+    feats['n_ids_configured'] = n_conf
     try:
-        model = GP.build_chi(leaves, n_ids, force_composed=force)
+        model = GP.build_chi(leaves, n_conf, force_composed=force)
     except Exception as e:      # noqa
         ctx.violation_exc('construction_raises', e, {'case': feats}, feats)
         return
